@@ -61,3 +61,26 @@ extern "C" void h_zero() {
     }
     vf_witness();
 }
+
+// forward-overlapping copy inside ONE block (destination below the source by SHIFT bytes), as done by
+// `stream = view-of-its-own-storage`: every build must behave like the byte-wise forward loop, i.e. like memmove
+#ifndef SHIFT
+#define SHIFT 1
+#endif
+extern "C" void h_copy_fwd() {
+    const unsigned total = LEN + SHIFT;
+    unsigned char *d = vf_buf<unsigned char>(total);
+    unsigned i = vf_u32();
+    vf_assume(i < total);
+    const unsigned char old_i = d[i];
+    const unsigned char old_s = (i < LEN) ? d[i + SHIFT] : (unsigned char)0;
+    NUM len = vf_any<NUM>();
+    vf_assume(len == LEN);
+    Memory::Copy<NUM>(d, d + SHIFT, len);
+    if (i < LEN) {
+        vf_assert(d[i] == old_s, 1);
+    } else {
+        vf_assert(d[i] == old_i, 2);
+    }
+    vf_witness();
+}
